@@ -1,8 +1,13 @@
 import Acra.Gen.Src.Init
 import Acra.Model.Search
 import Acra.Lemmas.SrcTieSwap
+import Acra.Gen.Src.SamDec008
+import Acra.Gen.Src.H264
+import Acra.Lemmas.SrcTieSearch
+import Acra.Lemmas.KMP
+import Acra.Lemmas.Search
 namespace Acra.Props.C17
-open Acra Acra.Py Acra.Lemmas.SrcTieSwap
+open Acra Acra.Py Acra.Lemmas.SrcTieSwap Acra.Lemmas.SrcTieSearch
 
 /-! Source tie (C17): `AcraNetwork.endianness_swap`, regenerated from the current Python source by
     `harness/translate.py` on every run (see `Props/C07/SrcTie.lean`). -/
@@ -53,5 +58,57 @@ example : Gen.Src.Init.endianness_swap [1, 2, 3, 4] 2 = .ok [2, 1, 4, 3] := by r
 example : Gen.Src.Init.endianness_swap [1, 2, 3, 4] 4 = .ok [4, 3, 2, 1] := by rfl
 example : Gen.Src.Init.endianness_swap [1, 2, 3] 0 = .error .zeroDiv := by rfl
 example : Gen.Src.Init.endianness_swap [1, 2, 3] (-3) = .error .generic := by rfl
+
+/-! ### the search algorithms: `KMP.partial`, `KMP.search`, both copies of Horspool -/
+
+/-- `KMP.partial` as written today = the model `kmpPartial`, for EVERY pattern (the empty one too: `[0]`), results as
+    Python ints.  The theorem includes termination of the fall-back `while` within the fuel `j + 1` wherever the model
+    terminates (everywhere: `KMP_partial_failure_table`). -/
+theorem src_KMP_partial (p : Bytes) :
+    Gen.Src.Init.KMP_partial p = (Model.Search.kmpPartial p).map (List.map Int.ofNat) := by
+  unfold Gen.Src.Init.KMP_partial Model.Search.kmpPartial
+  have hr : Py.range2 1 (Py.len p) =
+      (List.range (p.drop 1).length).map (fun (k : Nat) => ((1 : Nat) : Int) + (k : Int)) := by
+    unfold Py.range2 Py.len
+    have : ((p.length : Int) - 1).toNat = (p.drop 1).length := by simp
+    rw [this]; rfl
+  rw [hr]
+  rw [bind_ok_self]
+  refine partialLoop_tie p _ (fun ret i c hi hpi => ?_) (p.drop 1) 1 [0] rfl (by omega)
+  have hi1 : (i : Int) - 1 = ((i - 1 : Nat) : Int) := by omega
+  simp only [hi1, getItem_nat]
+  unfold partialStep
+  cases ret[i - 1]? with
+  | none => rfl
+  | some j =>
+    simp only [liftN_some, bind, Except.bind, toNat_succ]
+    rw [fall_tie p ret c _ _ ?hc ?hb]
+    case hc =>
+      intro j
+      simp only [getByte_nat, hpi, liftB_some]
+      by_cases hj : j > 0
+      · have hj' : (j : Int) > 0 := by omega
+        rw [if_pos hj, if_pos hj']
+        cases p[j]? with
+        | none => rfl
+        | some x => simp only [liftB_some, decide_eq_decide.mpr (u8_ne_iff x c)]
+      · have hj' : ¬ (j : Int) > 0 := by omega
+        rw [if_neg hj, if_neg hj']
+    case hb =>
+      intro j hj
+      have hj1 : (j : Int) - 1 = ((j - 1 : Nat) : Int) := by omega
+      simp only [hj1, getItem_nat]
+      cases ret[j - 1]? <;> rfl
+    cases Model.Search.kmpFall p ret c (j + 1) j with
+    | error e => rfl
+    | ok j2 =>
+      simp only [Except.map, Int.ofNat_eq_natCast, getByte_nat, hpi, liftB_some]
+      cases p[j2]? with
+      | none => rfl
+      | some x =>
+        simp only [liftB_some, u8_eq_iff, List.map_append, List.map_cons, List.map_nil, beq_iff_eq]
+        by_cases hx : x = c
+        · simp only [hx, if_true]; rfl
+        · simp only [hx, if_false]; rfl
 
 end Acra.Props.C17
